@@ -17,8 +17,8 @@ import (
 	"strings"
 	"time"
 
-	"golang.org/x/crypto/hkdf"
 	pt "gitlab.torproject.org/tpo/anti-censorship/pluggable-transports/goptlib"
+	"golang.org/x/crypto/hkdf"
 
 	"gitlab.com/yawning/obfs4.git/common/uniformdh"
 	"gitlab.com/yawning/obfs4.git/transports"
@@ -32,10 +32,10 @@ import (
 // no server implementation.  It answers a client's UniformDH handshake and seals packets with
 // the session keys, valid or deliberately malformed.
 type SSServer struct {
-	KB   []byte
-	s    cipher.Stream
-	mac  hash.Hash
-	Resp []byte // the handshake response it produced
+	KB              []byte
+	s               cipher.Stream
+	mac             hash.Hash
+	Resp            []byte // the handshake response it produced
 	PadOff, MarkOff int
 }
 
